@@ -26,7 +26,33 @@ Inductive iout :=
 
 Inductive itail := JMore (rest : string) | JErr (k : errkind) | JOther | JPanic.
 
+(* A large value described by a rule (the frame itself would be a literal of hundreds of
+   kilobytes): VRep n e = array of n copies of e, VHRep hd n e = array of the elements hd followed by n
+   copies of e, VFill len b = bulk string of len bytes b. *)
+Inductive vgen :=
+| VV (v : resp)
+| VRep (n : N) (e : vgen)
+| VHRep (hd : list vgen) (n : N) (e : vgen)
+| VArr (l : list vgen)
+| VFill (len : N) (byte : N).
+
+Fixpoint vexpand (g : vgen) : resp :=
+  match g with
+  | VV v => v
+  | VRep n e => let x := vexpand e in RArr (N.iter n (cons x) [])
+  | VHRep hd n e => let x := vexpand e in RArr (map vexpand hd ++ N.iter n (cons x) [])
+  | VArr l => RArr (map vexpand l)
+  | VFill len b => RBulk (N.iter len (cons b) [])
+  end.
+
+(* polynomial hash of a byte string, modulo 2^32: ties the frame Coq builds from the rule to
+   the bytes the harness fed to the implementation *)
+Definition bhash (b : bytes) : N :=
+  fold_left (fun h x => N.land (h * 257 + x + 1) 4294967295%N) b 0%N.
+
 Inductive case :=
+| KG (g : vgen) (trail : string) (run : bool) (fhash flen : N) (cn pn : N) (csame psame : bool)
+| KT (g : vgen) (k : N) (c p : iout)
 | KP (input : string) (c : iout) (calloc : N) (p : iout)
 | KX (len code : N) (c p : iout)
 | KE (v : resp) (enc_codec enc_parser : string) (c p : iout)
@@ -103,8 +129,34 @@ Fixpoint nth_string (len : nat) (code : N) (acc : bytes) : bytes :=
 Definition deep_input (depth : N) (inner : bytes) : bytes :=
   N.iter depth (fun b => 42 :: 49 :: 13 :: 10 :: b)%N inner.
 
+(* Size-boundary frames.  KG: the implementation decoded [frame ++ trail] to a value the
+   harness found equal ([csame], [psame]) to the rule-described value, consuming [cn] / [pn]
+   bytes.  Coq rebuilds the value v from the rule, checks that it is well-formed, that
+   [encode v] is the frame that was fed (length and hash) and that the consumed counts are
+   its length: by theorem C15_encode_decode the model then answers
+   [Done v (length (encode v))] on [encode v ++ trail] for both decoders, i.e. exactly what
+   the implementation answered.  When [run] is set (frames small enough for the quadratic
+   model) the model is also evaluated.
+   KT: the implementation answered c / p on the first k bytes of the frame of the value;
+   with k < length (encode v) theorem C15_parse_prefix_incomplete gives Incomplete. *)
+Definition done_exact (o : outcome) (v : resp) (n : N) : bool :=
+  match o with Done w m => resp_eqb false w v && (N.of_nat m =? n)%N | _ => false end.
+
 Definition check (k : case) : bool :=
   match k with
+  | KG g trail run fhash flen cn pn csame psame =>
+      let v := vexpand g in
+      let f := encode v in
+      wf_resp MAX_DEPTH v && (N.of_nat (List.length f) =? flen)%N && (bhash f =? fhash)%N &&
+      (cn =? flen)%N && (pn =? flen)%N && csame && psame &&
+      (if run then
+         let b := (f ++ unhex trail)%list in
+         done_exact (parse true b) v flen && done_exact (parse false b) v flen
+       else true)
+  | KT g k c p =>
+      let f := encode (vexpand g) in
+      wf_resp MAX_DEPTH (vexpand g) && (k <? N.of_nat (List.length f))%N &&
+      match c, p with IInc, IInc => true | _, _ => false end
   | KP h c ca p =>
       let b := unhex h in
       both b c p && alloc_eqb (alloc_request true b) ca
